@@ -377,7 +377,12 @@ pub fn format_function_args(
                 && (ctx.should_omit_string_parens() || ctx.should_omit_table_parens())
                 && arguments.len() == 1
                 && !matches!(call_next_node, FunctionCallNextNode::ObscureWithoutParens)
-                // Comments just inside the parentheses (`f( --[[comment]] "string")`) would be lost if we removed them
+                // Comments just inside the parentheses (`f( --[[comment]] "string")`), or between the function and the
+                // opening parenthesis, would be lost if we removed them
+                && !parentheses
+                    .tokens()
+                    .0
+                    .has_leading_comments(CommentSearch::All)
                 && !parentheses
                     .tokens()
                     .0
